@@ -271,6 +271,7 @@ RECIPES = {
     },
     'parso/python/pep8.py': {
         'PEP8Normalizer.visit_leaf': [r_for_over(r'leaf\._split_prefix\(\)', ['part'])],
+        'PEP8Normalizer._visit_node': [r_assigned_from(r'node\.type', 'typ')],
         'BracketNode.__init__': [r_assigned_from(r'parent|\w+\.parent', 'n'),
                                  r_assigned_from(r'n\.indentation', 'parent_indentation')],
     },
@@ -605,10 +606,117 @@ def _inline_pure_helpers(tree):
     ast.fix_missing_locations(tree)
 
 
+def _inline_callable_aliases(tree):
+    """remove = os.remove; ... remove(p)   ->   os.remove(p)
+    cache = parser_cache; ... cache[k]      ->   parser_cache[k]
+    append = merged.append; ... append(x)   ->   merged.append(x)
+    The look-up-binding idiom of performance passes: a local assigned exactly once from a dotted name that is rooted at
+    a module-level / imported name (never rebound in the function), or from a method of a local that is itself assigned
+    exactly once, is spelled out again, so that rules keep seeing the call they know."""
+    import copy
+    module_names = set()
+    for st in tree.body:
+        if isinstance(st, (ast.Import, ast.ImportFrom)):
+            for al in st.names:
+                module_names.add((al.asname or al.name).split('.')[0])
+        elif isinstance(st, (ast.FunctionDef, ast.AsyncFunctionDef, ast.ClassDef)):
+            module_names.add(st.name)
+        elif isinstance(st, (ast.Assign, ast.AnnAssign)):
+            for t in (st.targets if isinstance(st, ast.Assign) else [st.target]):
+                for x in ast.walk(t):
+                    if isinstance(x, ast.Name):
+                        module_names.add(x.id)
+
+    def own_nodes(fn):
+        stack = list(fn.body)
+        while stack:
+            n = stack.pop()
+            yield n
+            if isinstance(n, (ast.FunctionDef, ast.AsyncFunctionDef, ast.ClassDef, ast.Lambda)):
+                continue
+            stack.extend(ast.iter_child_nodes(n))
+
+    for fn in [n for n in ast.walk(tree) if isinstance(n, (ast.FunctionDef, ast.AsyncFunctionDef))]:
+        a = fn.args
+        params = {x.arg for x in a.posonlyargs + a.args + a.kwonlyargs}
+        if a.vararg:
+            params.add(a.vararg.arg)
+        if a.kwarg:
+            params.add(a.kwarg.arg)
+        stores = {}
+        declared = set()
+        for n in own_nodes(fn):
+            if isinstance(n, ast.Name) and isinstance(n.ctx, (ast.Store, ast.Del)):
+                stores.setdefault(n.id, []).append(n)
+            if isinstance(n, (ast.Global, ast.Nonlocal)):
+                declared.update(n.names)
+        # nested functions that rebind a name make it unsafe
+        nested_stores = set()
+        for n in ast.walk(fn):
+            if n is not fn and isinstance(n, (ast.FunctionDef, ast.AsyncFunctionDef, ast.Lambda)):
+                for x in ast.walk(n):
+                    if isinstance(x, ast.Name) and isinstance(x.ctx, ast.Store):
+                        nested_stores.add(x.id)
+        mapping = {}
+        for name, sts in stores.items():
+            if len(sts) != 1 or name in params or name in declared or name in nested_stores:
+                continue
+            st = getattr(sts[0], '_p', None)
+        # find the assignment statements (no parent links yet at this stage)
+        for n in own_nodes(fn):
+            if not (isinstance(n, ast.Assign) and len(n.targets) == 1 and isinstance(n.targets[0], ast.Name)):
+                continue
+            name = n.targets[0].id
+            if len(stores.get(name, [])) != 1 or name in params or name in declared or name in nested_stores:
+                continue
+            v = n.value
+            chain = v
+            depth = 0
+            while isinstance(chain, ast.Attribute):
+                chain = chain.value
+                depth += 1
+            if not isinstance(chain, ast.Name):
+                continue
+            root = chain.id
+            if root in module_names and root not in stores and root not in params:
+                if depth == 0 and not root.startswith('_') and root not in ('parser_cache',):
+                    # a bare global: only containers / functions of the module (private names, the cache) are aliased
+                    pass
+                mapping[name] = v
+            elif depth == 1 and len(stores.get(root, [])) == 1 and root not in params:
+                # bound method of a local object: only used as a callee
+                mapping[name] = ('method', v)
+        if not mapping:
+            continue
+
+        class Sub(ast.NodeTransformer):
+            def visit_FunctionDef(self, node):
+                return node if node is not fn else self.generic_visit(node)
+            visit_AsyncFunctionDef = visit_FunctionDef
+
+            def visit_Lambda(self, node):
+                return node
+
+            def visit_Call(self, node):
+                self.generic_visit(node)
+                if isinstance(node.func, ast.Name) and isinstance(mapping.get(node.func.id), tuple):
+                    node.func = copy.deepcopy(mapping[node.func.id][1])
+                return node
+
+            def visit_Name(self, node):
+                m = mapping.get(node.id)
+                if m is not None and not isinstance(m, tuple) and isinstance(node.ctx, ast.Load):
+                    return ast.copy_location(copy.deepcopy(m), node)
+                return node
+        Sub().visit(fn)
+    ast.fix_missing_locations(tree)
+
+
 def normal_form(tree, root=None, rel=None):
     # statement-level forms first (so that `x = E; return x` bodies count as single-return functions), then the
     # wrapper / implementation pairs, then extracted one-expression helpers, then expression forms
     _PlainAssign().visit(tree)
+    _inline_callable_aliases(tree)
     _InlineReturn().visit(tree)
     _inline_delegators(tree, _identifiers_elsewhere(root, rel) if root and rel else frozenset())
     _inline_pure_helpers(tree)
